@@ -8,21 +8,21 @@ AI = "abstract interpretation of the function's MIR over opaque tokens and small
 TECH = {
     "C01": AI + " (ranger::Store::process_message with awaits driven to completion on a grid of local key sets, ranges, peer fingerprints and split configurations; put / Record order; as_fingerprint over a hasher model) + accounting placement (scope / dominance)",
     "C02": AI + " (put admission/prune, Record order) + provenance/dominance rules for the prefix bounds (custom rustc_private driver)",
-    "C03": "interprocedural call-site dominance (ensures fixpoint), who-may-construct, provenance of the reference time at every call site; validate_entry / validate_empty / signature verification tables by " + AI,
-    "C05": AI + " (index selection, selector, full query window over QueryIterator::next with persistent state, stale-index scan) + provenance rules",
-    "C06": "bottom-up effect summaries (Mutate/MayCommit over the call graph) + who-may-write / who-may-commit over MIR + " + AI + " (shared-transaction manager as a transition table)",
-    "C07": AI + " (merge table, import transaction, actor import handler, secret_key, the RPC import handler, the file-format migration) + who-may-write (field, table)",
+    "C03": "interprocedural call-site dominance (ensures fixpoint), who-may-construct, provenance of the reference time at every call site; validate_entry / validate_empty / signature verification tables and the gossip receive loop on message scripts by " + AI,
+    "C05": AI + " (index selection, selector, full query window over QueryIterator::next with persistent state, stale-index scan) + provenance rules" + " + the store-actor handlers and SyncHandle methods evaluated as forwarders (K14b)",
+    "C06": "bottom-up, order-sensitive effect summaries (Mutate/MayCommit over the call graph; commit reachable after a mutation in the control flow of the operation or of any function on its call tree) + who-may-write / who-may-commit over MIR + " + AI + " (shared-transaction manager as a transition table)",
+    "C07": AI + " (merge table, import transaction, actor import handler, secret_key, the RPC import handler, raw/from_raw round trip, migration 002, the file-format migration) + who-may-write (field, table)" + " + the store-actor handlers and SyncHandle methods evaluated as forwarders (K14b)",
     "C08": AI + " (get_range scans and bounds, fingerprint fold, bytewise xor on concrete values, get_first) + key-shape / component-map provenance",
     "C09": AI + " with a byte-buffer model in which an out-of-bounds index or failed unwrap diverges (decoder and encoder grids; identifier constructor; Display/FromStr round trip on concrete strings; ticket decoder) + panic-site audit",
-    "C10": AI + " with awaits driven to completion: acceptor and initiator sessions over all frame scripts up to a bound, into_outcome on every final state; + gate table + panic-site audit",
+    "C10": AI + " with awaits driven to completion: acceptor and initiator sessions over all frame scripts up to a bound, into_outcome on every final state; + gate table + panic-site audit" + " + the store-actor handlers and SyncHandle methods evaluated as forwarders (K14b)",
     "C11": AI + " (four transition tables, tie-break) + who-may-write + dominance rules in the live actor",
-    "C12": "who-may-call + edge dominance + provenance over MIR; per-subscriber delivery future and policy semantics by " + AI,
-    "C13": "control dependence of the head write; news predicate, insert-keeps-maximum and bounded newest-first encoding by " + AI + " (abstract collections)",
-    "C14": "effect-based gate dominance + who-may-call; gates, open/close counting and the RPC open/close handlers by " + AI,
-    "C15": AI + " (matches on concrete strings, set_download_policy transaction, Display/FromStr round trip, RPC handlers, file-format migration) + who-may-write",
-    "C16": "program-derived exhaustiveness over the fields of Tables + provenance lifted to the API parameter + discarded-result analysis; remove_replica on a concrete namespace with erased ranges decided on sample keys, gc-protect task and callback, RPC drop handler by " + AI,
-    "C17": AI + " (registration simulated on every table size and position incl. other documents' rows, RPC handler, file-format migration) + constant evaluation + reverse-iteration rule",
-    "C18": AI + " (migrations 001 / 004 over an abstract records table, entry_put, index reader, file-format migration) + must-pass-through per migration + dominance",
+    "C12": "who-may-call + edge dominance + provenance over MIR; per-subscriber delivery future, the send_with gate on subscriber lists and policy semantics by " + AI + " + the store-actor handlers, SyncHandle methods and the gossip receive loop evaluated as forwarders (K14b)",
+    "C13": "control dependence of the head write; news predicate, insert-keeps-maximum and bounded newest-first encoding by " + AI + " (abstract collections)" + " + the store-actor handlers and SyncHandle methods evaluated as forwarders (K14b)",
+    "C14": "effect-based gate dominance + who-may-call; gates, open/close counting and the RPC open/close handlers by " + AI + " + the store-actor handlers and SyncHandle methods evaluated as forwarders (K14b)",
+    "C15": AI + " (matches on concrete strings, set_download_policy transaction, Display/FromStr round trip, RPC handlers, store-actor handlers (K14b), the live actor's remote-insert handler, file-format migration) + who-may-write",
+    "C16": "program-derived exhaustiveness over the fields of Tables + provenance lifted to the API parameter + discarded-result analysis; remove_replica on a concrete namespace with erased ranges decided on sample keys, gc-protect task and callback, the content-hash iterator over scripted rows, RPC drop handler by " + AI,
+    "C17": AI + " (registration simulated on every table size and position incl. other documents' rows, RPC handler, file-format migration) + constant evaluation + reverse-iteration rule" + " + the store-actor handlers and SyncHandle methods evaluated as forwarders (K14b)",
+    "C18": AI + " (migrations 001 / 004 over an abstract records table, migrations 002 / 003 over the table list, entry_put, index reader, file-format migration) + must-pass-through per migration + dominance",
 }
 NA = {
     "C04": "quantifies over interleavings of writes, lossy broadcast, aborted sessions and restarts across 2-5 replicas; it has no "
